@@ -39,13 +39,13 @@ CLAIM = {
             "it Int/Uint/Float (c14_parse_number_kind). In an abstract model of the map encoders the members written without SortMapKeys are a permutation of the sorted ones and a "
             "last-wins decoder reads the same object (c14_map_order_permutation, c14_map_order_same_object). "
             "STRUCTURE (c14tree_* theorems, Json/TreeFlagsModel.v over the value-tree model of C01/C02, tied to /repo by ~60k f.tree.* cases per run): for every type of the tree universe, every well-formed value, EscapeHTML on or off and ANY order in which the members of each map are written (an admissible oracle; in the relational form penc every map occurrence is permuted independently, as Go randomises each range), "
-            "the output is an RFC 8259 text (c14tree_append_flags_valid) that the decoder reads back as exactly the value read from the default output (c14tree_append_flags_meaning, _same_value, _rel_meaning); with both flags on it is Marshal's output byte for byte (c14tree_flags_default); EscapeHTML changes only the inside of string tokens, replacing the three bytes < > & by their u00XX escapes (c14tree_escape_html_only_strings, _escape_html_string, _no_html_same_bytes); "
+            "the output is an RFC 8259 text (c14tree_append_flags_valid) that the decoder reads back as exactly the value read from the default output (c14tree_append_flags_meaning, c14tree_append_flags_same_value, c14tree_append_rel_meaning); with both flags on it is Marshal's output byte for byte (c14tree_flags_default); EscapeHTML changes only the inside of string tokens, replacing the three bytes < > & by their u00XX escapes (c14tree_escape_html_only_strings, _escape_html_string, _no_html_same_bytes); "
             "unsorted members are a permutation of the sorted ones and maps of at most one entry are written identically (c14tree_unsorted_is_permutation, _unsorted_small_maps). Parse side: with no flag jdec_f is the Unmarshal model for every input (c14tree_parse_default); on the package's own output under any AppendFlags, DontMatchCaseInsensitiveStructFields and DisallowUnknownFields in any combination return the same value (c14tree_parse_flags_meaning, also with white space); "
             "for EVERY document DisallowUnknownFields only rejects, never changes a decoded value, and a document accepted under both struct-key flags decodes alike under every setting (c14tree_strict_only_rejects, _exact_strict_universal); the converse equations are refuted by concrete documents (a key differing by case, an unknown key). "
             "Everything else of the property is decided by correspondence with encoding/json on every run: the 8 AppendFlags subsets on the json type/value universe incl. the five specialised "
             "map encoders (error equivalence with the default flags, bytes equal to encoding/json with SetEscapeHTML(false), permutation-only differences when unsorted, same generic value), "
             "the Encoder setters, Parse/Decoder under all 16 subsets of DontCopyString/DontCopyNumber/DontCopyRawMessage/DontMatchCaseInsensitiveStructFields, and the four number flags on whole documents.",
-    "note": "Trusted: Coq kernel; translator; the hand-written glue of Json/FlagsModel.v around the translated scanners, tied to the code by correspondence on ~53k (flags, literal, context) cases per run "
+    "note": "One open finding shows in this check: F31 (null into a non-nil pointer to a pointer after a duplicate key; C02's finding, seen by the f.tree.dec cases under every ParseFlags subset alike). Trusted: Coq kernel; translator; the hand-written glue of Json/FlagsModel.v around the translated scanners, tied to the code by correspondence on ~53k (flags, literal, context) cases per run "
             "(model = implementation = math/big oracle = extracted decision table); math/big's Int.UnmarshalJSON modelled by its specification; strconv.ParseFloat left uninterpreted; extraction+driver; harness. "
             "The clause `same generic value as the default output` is false in encoding/json itself for string fields with the ,string option (the inner string is HTML-escaped before being quoted again): "
             "those types are compared on bytes only. With TrustRawMessage the white space of raw messages is copied verbatim when EscapeHTML is off (compared after compaction).",
